@@ -19,6 +19,8 @@ def argErrs (a : Arg) : List Lit :=
     | none => [.u64Empty, .u64Invalid, .u64Overflow]
   | .flt => [a.onErr.getD .notFloat]
   | .usz => [a.onErr.getD .notInt]
+  | .kw => []
+  | .u32 => [a.onErr.getD .notInt]
 
 theorem extract_err {a : Arg} {v : Bytes} {e : BErr} (h : a.extract v = .error e) :
     ∃ l ∈ argErrs a, e = .lit l := by
@@ -44,6 +46,9 @@ theorem extract_err {a : Arg} {v : Bytes} {e : BErr} (h : a.extract v = .error e
   · cases hp : parseF64 v <;> rw [hp] at h <;> simp at h
     exact ⟨_, by simp, h.symm⟩
   · cases hp : parseUnsigned u64Max v <;> rw [hp] at h <;> simp at h
+    exact ⟨_, by simp, h.symm⟩
+  · simp at h
+  · cases hp : parseUnsigned u32Max (lossy v) <;> rw [hp] at h <;> simp at h
     exact ⟨_, by simp, h.symm⟩
 
 theorem extractFixed_err : ∀ (as : List Arg) (vs : List Bytes) (e : BErr), as.length = vs.length →
